@@ -304,8 +304,9 @@ def check(case):
     # hash it reports for a cell is always the hash of the cell's content
     order = rc.topo([root_r])
     sel = set(range(0, len(order), 2)) if case.get('idx') else set(range(len(order)))
-    for bogus in (False, True):
-        boc = refboc.encode([root_r], has_crc=bool(case.get('crc')), with_hashes=sel, bogus_hashes=sel if bogus else ())
+    for bogus in (False, True, 'hash-only'):
+        boc = refboc.encode([root_r], has_crc=bool(case.get('crc')), with_hashes=sel,
+                            bogus_hashes={i: 'hash-only' for i in sel} if bogus == 'hash-only' else sel if bogus else ())
         ok, p2 = call(Cell.one_from_boc, boc)
         if not ok:
             if bogus:
@@ -318,7 +319,7 @@ def check(case):
             if id(r) in seen:
                 continue
             seen.add(id(r))
-            f = node_problem(r, l, 'parsed/stored-hashes-' + ('wrong' if bogus else 'genuine'))
+            f = node_problem(r, l, 'parsed/stored-hashes-' + ('wrong-depths-true' if bogus == 'hash-only' else 'wrong' if bogus else 'genuine'))
             if f:
                 return f
             stack.extend(zip(r.refs, l.refs))
